@@ -459,6 +459,9 @@ static bool check_handles_ok(Case& c, const Fn* f, const Args& A, const CallResu
     hx::checked(1);
     if (c.failed) return false;
     if (r <= 0) {
+      // after a call that reported success, a false OK() is a defect of the C++ domain underneath (the business of C01-C10's monitors),
+      // not of the interface layer C20 speaks about: counted, and the object is retired; after an error it is C20's "objects stay usable"
+      if (cr.r >= 0) { hx::count("handle.not_ok_after_success." + type_family(type_table[o.type].name)); o.alive = false; return false; }
       viol(c, std::string("C20.handle.not_ok.") + type_family(type_table[o.type].name) + "." + cls, what + ": argument " + f->args[k].name + " fails " + okf->name + " (" + itos(r) + ")");
       return false;
     }
@@ -538,7 +541,8 @@ static StepOut step(Case& c, const Fn* f, const Mut& mut, Mode mode, long arm_k,
     try { okv = ti.ops->ok(A.a[k].p); } catch (...) { okv = 0; }
     hx::checked(1);
     if (!okv) {
-      viol(c, "C20.handle.not_ok." + type_family(ti.name) + ".built_object", "an object built through the C constructors / mutators fails OK() before being used as argument " + std::string(f->args[k].name) + " of " + f->name + ": " + ti.ops->dump(A.a[k].p).substr(0, 400));
+      // same remark: the builder calls all reported success; a domain-level defect, counted (the call is skipped)
+      hx::count("handle.not_ok_built_object." + type_family(ti.name));
       release_temps(c, A); return so;
     }
   }
@@ -663,7 +667,9 @@ static StepOut step(Case& c, const Fn* f, const Mut& mut, Mode mode, long arm_k,
             viol(c, key, what + ": argument " + s.name + " after the call: C side {" + ops->dump(A.a[k].p).substr(0, 600) + "} twin {" + ops->dump(t.cp[k]).substr(0, 600) + "}");
             ok = false; break;
           }
-          if (pre[k]) {
+          bool aliases_mutable = false;   // the same handle also passed as a non-const argument: it is allowed to change
+          for (int m2 = 0; m2 < f->nargs; ++m2) if (m2 != k && f->args[m2].kind == K_HIN && !f->args[m2].is_const && A.a[m2].p == A.a[k].p) aliases_mutable = true;
+          if (pre[k] && !aliases_mutable) {
             if (!ops->equal(A.a[k].p, pre[k])) { viol(c, "C20.const_modified." + pat, what + ": const argument " + s.name + " changed value: before {" + dump_before[k].substr(0, 500) + "} after {" + ops->dump(A.a[k].p).substr(0, 500) + "}"); ok = false; break; }
             std::string after = ops->dump(A.a[k].p);
             if (!(F & (F_IO_STDOUT | F_IO_FILE_OUT | F_IO_STR)) && after != dump_before[k] && tdump_before[k] == dump_before[k] && ops->dump(t.cp[k]) == tdump_before[k]) {
